@@ -134,7 +134,7 @@ theorem identOK_iff {s : Str} : identOK s = true ↔ s ≠ [] ∧ ∀ c ∈ s, i
 
 theorem pathOK_unpack {p : Str} (h : pathOK p = true) :
     p ≠ [] ∧ (∀ c ∈ p, pathChar c = true) ∧ pathOf p = p ∧ (∀ c ∈ lastElem p, (c != '.') = true) := by
-  simp only [pathOK, noDotInLastPathElem, Bool.and_eq_true, Bool.not_eq_true'] at h
+  simp only [pathOK, pathValid, noDotInLastPathElem, Bool.and_eq_true, Bool.not_eq_true'] at h
   obtain ⟨⟨⟨h1, h2⟩, h3⟩, h4⟩ := h
   refine ⟨?_, ?_, ?_, ?_⟩
   · intro e; subst e; simp at h1
@@ -188,5 +188,885 @@ theorem scopeStr_inj_prefix : ∀ (s₁ s₂ : List Nat) (r₁ r₂ : Str), Stop
     have ij := natStr_inj this.1
     have := scopeStr_inj_prefix s₁ s₂ r₁ r₂ h₁ h₂ this.2
     exact ⟨by rw [ij, this.1], this.2⟩
+
+
+/-! ## the rendering of type arguments is a prefix code -/
+
+/-- which constructor a rendered type argument starts with, read off the string -/
+def tagOf (s : Str) : Nat :=
+  if s.head? = some '*' then 0
+  else if s.head? = some '[' then (if (s.drop 1).head? = some ']' then 1 else 2)
+  else if (s.takeWhile nb).contains '.' then 4
+  else if s.takeWhile nb = ['m', 'a', 'p'] ∧ (s.drop 3).head? = some '[' then 3 else 5
+
+def Ty.tag : Ty → Nat
+  | .ptr _ => 0 | .slice _ => 1 | .array _ _ => 2 | .map _ _ => 3 | .named .. => 4 | .basic _ => 5
+  | .chan .. => 6 | .other _ => 7
+
+theorem takeWhile_nb_ident (n r : Str) (hn : ∀ c ∈ n, identChar c = true) (hr : StopB r = true) :
+    (n ++ r).takeWhile nb = n := by
+  rw [takeWhile_append_all _ _ (fun c hc => by simp [nb, ident_not_brk (hn c hc)]),
+    takeWhile_headNot (stop_headNot_nb hr)]
+  simp
+
+theorem tagOf_of (s w : Str) (hw : s.takeWhile nb = w) : tagOf s =
+    if s.head? = some '*' then 0
+    else if s.head? = some '[' then (if (s.drop 1).head? = some ']' then 1 else 2)
+    else if w.contains '.' then 4
+    else if w = ['m', 'a', 'p'] ∧ (s.drop 3).head? = some '[' then 3 else 5 := by
+  subst hw; rfl
+
+theorem tag_correct (t : Ty) (r : Str) (ht : t.ok pathOK = true) (hr : StopB r = true) :
+    tagOf (tyStr t ++ r) = t.tag := by
+  cases t with
+  | ptr e => simp [tyStr, tagOf, Ty.tag]
+  | slice e => simp [tyStr, tagOf, Ty.tag]
+  | array n e =>
+    have : ∃ d ds, natStr n = d :: ds ∧ d ≠ ']' := by
+      cases hn : natStr n with
+      | nil => exact absurd hn (natStr_ne_nil n)
+      | cons d ds =>
+        refine ⟨d, ds, rfl, ?_⟩
+        have := natStr_digits n d (by simp [hn])
+        intro e; subst e; revert this; decide
+    obtain ⟨d, ds, hn, hd⟩ := this
+    simp [tyStr, tagOf, Ty.tag, hn, hd]
+  | map k v =>
+    have h1 : ∀ X : Str, List.takeWhile nb ('m' :: 'a' :: 'p' :: '[' :: X) = ['m', 'a', 'p'] := by
+      intro X; simp [List.takeWhile, nb, brk]
+    simp only [tyStr, Ty.tag, List.cons_append]
+    rw [tagOf_of _ _ (h1 _)]
+    simp
+  | named p n ta sc =>
+    simp only [Ty.ok, Bool.and_eq_true] at ht
+    obtain ⟨⟨hp, hn⟩, _⟩ := ht
+    obtain ⟨hp0, hpc, hpo, _⟩ := pathOK_unpack hp
+    simp only [tyStr, hpo]
+    cases p with
+    | nil => exact absurd rfl hp0
+    | cons c p =>
+      have hc := hpc c (by simp)
+      have c1 : c ≠ '*' := by intro e; subst e; revert hc; decide
+      have c2 : c ≠ '[' := by intro e; subst e; revert hc; decide
+      have hall : ∀ x ∈ (c :: p) ++ ['.'], nb x = true := by
+        intro x hx
+        simp only [List.mem_append, List.mem_singleton] at hx
+        rcases hx with hx | hx
+        · simp [nb, path_not_brk (hpc x hx)]
+        · subst hx; decide
+      have hdot : ((c :: p ++ '.' :: (n ++ (if ta.isEmpty = true then [] else '[' :: tysStr ta ++ [']']) ++ scopeStr sc) ++ r).takeWhile nb).contains '.' = true := by
+        have e : c :: p ++ '.' :: (n ++ (if ta.isEmpty = true then [] else '[' :: tysStr ta ++ [']']) ++ scopeStr sc) ++ r
+            = ((c :: p) ++ ['.']) ++ ((n ++ (if ta.isEmpty = true then [] else '[' :: tysStr ta ++ [']']) ++ scopeStr sc) ++ r) := by simp
+        rw [e, takeWhile_append_all _ _ hall]
+        simp
+      simp only [Ty.tag]
+      rw [tagOf_of _ _ rfl, hdot]
+      simp [c1, c2]
+  | basic n =>
+    simp only [Ty.ok] at ht
+    obtain ⟨hn0, hnc⟩ := identOK_iff.mp ht
+    simp only [tyStr, Ty.tag]
+    rw [tagOf_of _ _ (takeWhile_nb_ident n r hnc hr)]
+    cases n with
+    | nil => exact absurd rfl hn0
+    | cons c n =>
+      have hc := hnc c (by simp)
+      have c1 : c ≠ '*' := by intro e; subst e; revert hc; decide
+      have c2 : c ≠ '[' := by intro e; subst e; revert hc; decide
+      have hd : (c :: n).contains '.' = false := by
+        cases hcon : (c :: n).contains '.' with
+        | false => rfl
+        | true =>
+          have := hnc '.' (List.contains_iff_mem.mp hcon)
+          revert this; decide
+      rw [hd]
+      simp only [List.cons_append, List.head?_cons, Option.some.injEq, c1, c2, if_false, Bool.false_eq_true]
+      have hm : ¬ (c :: n = ['m', 'a', 'p'] ∧ ((c :: n ++ r).drop 3).head? = some '[') := by
+        rintro ⟨e, h3⟩
+        rw [e] at h3
+        simp only [List.cons_append, List.nil_append, List.drop_succ_cons, List.drop_zero] at h3
+        cases r with
+        | nil => simp at h3
+        | cons x r =>
+          simp only [List.head?_cons, Option.some.injEq] at h3
+          subst h3; simp [StopB] at hr
+      exact if_neg hm
+  | chan d e => simp [Ty.ok] at ht
+  | other s => simp [Ty.ok] at ht
+
+
+theorem scopeStr_chars (sc : List Nat) : ∀ c ∈ scopeStr sc, identChar c = true ∨ c = '.' := by
+  induction sc with
+  | nil => simp [scopeStr]
+  | cons i sc ih =>
+    intro c hc
+    simp only [scopeStr, List.mem_cons, List.mem_append] at hc
+    rcases hc with (hc | hc) | hc
+    · exact Or.inr hc
+    · exact Or.inl (natStr_ident i c hc)
+    · exact ih c hc
+
+/-- the bracketed type-argument list of a named type, or nothing -/
+def targsPart (ta : Tys) : Str := if ta.isEmpty then [] else '[' :: tysStr ta ++ [']']
+
+theorem named_rest_noslash (n : Str) (ta : Tys) (sc : List Nat) (r : Str)
+    (hn : ∀ c ∈ n, identChar c = true) (hr : StopB r = true) :
+    ∀ c ∈ (n ++ targsPart ta ++ scopeStr sc ++ r).takeWhile nb, (c != '/') = true := by
+  have key : ∀ (A B : Str), (∀ c ∈ A, identChar c = true ∨ c = '.') → HeadNot nb B →
+      ∀ c ∈ (A ++ B).takeWhile nb, (c != '/') = true := by
+    intro A B hA hB c hc
+    rw [takeWhile_append_all _ _ (fun x hx => by
+      rcases hA x hx with h | h
+      · simp [nb, ident_not_brk h]
+      · subst h; decide), takeWhile_headNot hB] at hc
+    simp only [List.append_nil] at hc
+    rcases hA c hc with h | h
+    · have : c ≠ '/' := ident_ne (by decide) h
+      simpa using this
+    · subst h; decide
+  unfold targsPart
+  split
+  · intro c hc
+    have e : n ++ [] ++ scopeStr sc ++ r = (n ++ scopeStr sc) ++ r := by simp
+    rw [e] at hc
+    refine key _ _ ?_ (stop_headNot_nb hr) c hc
+    intro x hx
+    simp only [List.mem_append] at hx
+    rcases hx with hx | hx
+    · exact Or.inl (hn x hx)
+    · exact scopeStr_chars sc x hx
+  · intro c hc
+    have e : n ++ ('[' :: tysStr ta ++ [']']) ++ scopeStr sc ++ r = n ++ ('[' :: (tysStr ta ++ [']'] ++ scopeStr sc ++ r)) := by simp
+    rw [e] at hc
+    exact key _ _ (fun x hx => Or.inl (hn x hx)) (headNot_cons (by decide)) c hc
+
+theorem tyStr_named (p n : Str) (ta : Tys) (sc : List Nat) :
+    tyStr (.named p n ta sc) = pathOf p ++ '.' :: (n ++ targsPart ta ++ scopeStr sc) := by
+  simp [tyStr, targsPart]
+
+/-- the `named` case of the prefix-code theorem, given the statement for its type-argument list -/
+theorem named_inj_of_ih {p₁ n₁ : Str} {ta₁ : Tys} {s₁ : List Nat} {p₂ n₂ : Str} {ta₂ : Tys} {s₂ : List Nat} {r₁ r₂ : Str}
+    (ih : ∀ (x₁ x₂ : Str), ta₂.ok pathOK = true → ta₁.isEmpty = false → ta₂.isEmpty = false →
+      tysStr ta₁ ++ ']' :: x₁ = tysStr ta₂ ++ ']' :: x₂ → ta₁ = ta₂ ∧ x₁ = x₂)
+    (h₁ : (Ty.named p₁ n₁ ta₁ s₁).ok pathOK = true) (h₂ : (Ty.named p₂ n₂ ta₂ s₂).ok pathOK = true)
+    (hr₁ : StopB r₁ = true) (hr₂ : StopB r₂ = true)
+    (h : tyStr (.named p₁ n₁ ta₁ s₁) ++ r₁ = tyStr (.named p₂ n₂ ta₂ s₂) ++ r₂) :
+    Ty.named p₁ n₁ ta₁ s₁ = .named p₂ n₂ ta₂ s₂ ∧ r₁ = r₂ := by
+  simp only [Ty.ok, Bool.and_eq_true] at h₁ h₂
+  obtain ⟨⟨hp₁, hn₁⟩, hta₁⟩ := h₁
+  obtain ⟨⟨hp₂, hn₂⟩, hta₂⟩ := h₂
+  obtain ⟨_, hpc₁, hpo₁, hpd₁⟩ := pathOK_unpack hp₁
+  obtain ⟨_, hpc₂, hpo₂, hpd₂⟩ := pathOK_unpack hp₂
+  obtain ⟨_, hnc₁⟩ := identOK_iff.mp hn₁
+  obtain ⟨_, hnc₂⟩ := identOK_iff.mp hn₂
+  rw [tyStr_named, tyStr_named, hpo₁, hpo₂] at h
+  have e : ∀ (p n : Str) (ta : Tys) (sc : List Nat) (r : Str),
+      p ++ '.' :: (n ++ targsPart ta ++ scopeStr sc) ++ r = p ++ '.' :: (n ++ targsPart ta ++ scopeStr sc ++ r) := by
+    intros; simp
+  rw [e, e] at h
+  obtain ⟨hp, hR⟩ := path_split (fun c hc => path_not_brk (hpc₁ c hc)) (fun c hc => path_not_brk (hpc₂ c hc)) hpd₁ hpd₂
+    (named_rest_noslash n₁ ta₁ s₁ r₁ hnc₁ hr₁) (named_rest_noslash n₂ ta₂ s₂ r₂ hnc₂ hr₂) h
+  subst hp
+  -- the object name
+  have hrest : ∀ (ta : Tys) (sc : List Nat) (r : Str), StopB r = true → HeadNot identChar (targsPart ta ++ scopeStr sc ++ r) := by
+    intro ta sc r hr
+    unfold targsPart
+    split
+    · cases sc with
+      | nil => simpa [scopeStr] using stop_headNot_ident hr
+      | cons k sc => exact headNot_cons (by decide)
+    · exact headNot_cons (by decide)
+  have e2 : ∀ (n : Str) (ta : Tys) (sc : List Nat) (r : Str),
+      n ++ targsPart ta ++ scopeStr sc ++ r = n ++ (targsPart ta ++ scopeStr sc ++ r) := by intros; simp
+  rw [e2, e2] at hR
+  obtain ⟨hn, hT⟩ := seg_eq hnc₁ hnc₂ (hrest ta₁ s₁ r₁ hr₁) (hrest ta₂ s₂ r₂ hr₂) hR
+  subst hn
+  -- type arguments present or not: decided by the next character
+  have hsc : ∀ (sc : List Nat) (r : Str), StopB r = true → ∀ X, scopeStr sc ++ r ≠ '[' :: X := by
+    intro sc r hr X
+    cases sc with
+    | nil =>
+      cases r with
+      | nil => simp [scopeStr]
+      | cons c r =>
+        simp only [StopB, Bool.or_eq_true, beq_iff_eq] at hr
+        rcases hr with hr | hr <;> subst hr <;> simp [scopeStr]
+    | cons k sc => simp [scopeStr]
+  unfold targsPart at hT
+  cases he₁ : ta₁.isEmpty <;> cases he₂ : ta₂.isEmpty <;> simp only [he₁, he₂, if_true, if_false, Bool.false_eq_true] at hT
+  · -- both instantiated
+    simp only [List.cons_append, List.append_assoc, List.cons.injEq, true_and, List.nil_append] at hT
+    obtain ⟨hta, hx⟩ := ih _ _ hta₂ he₁ he₂ hT
+    subst hta
+    obtain ⟨hs, hr⟩ := scopeStr_inj_prefix s₁ s₂ r₁ r₂ hr₁ hr₂ hx
+    subst hs; subst hr
+    exact ⟨rfl, rfl⟩
+  · exact absurd hT.symm (by simpa using hsc s₂ r₂ hr₂ _)
+  · exact absurd hT (by simpa using hsc s₁ r₁ hr₁ _)
+  · simp only [List.nil_append] at hT
+    obtain ⟨hs, hr⟩ := scopeStr_inj_prefix s₁ s₂ r₁ r₂ hr₁ hr₂ hT
+    subst hs; subst hr
+    cases ta₁ <;> cases ta₂ <;> simp [Tys.isEmpty] at he₁ he₂
+    exact ⟨rfl, rfl⟩
+
+
+theorem stop_of_comma (x : Str) : StopB (',' :: x) = true := rfl
+theorem stop_of_close (x : Str) : StopB (']' :: x) = true := rfl
+
+mutual
+/-- **Prefix code.** A covered type argument, rendered and followed by `,`/`]`/nothing, can be read back uniquely. -/
+theorem tyStr_inj_prefix : ∀ (t₁ t₂ : Ty) (r₁ r₂ : Str), t₁.ok pathOK = true → t₂.ok pathOK = true →
+    StopB r₁ = true → StopB r₂ = true → tyStr t₁ ++ r₁ = tyStr t₂ ++ r₂ → t₁ = t₂ ∧ r₁ = r₂
+  | .basic n₁, t₂, r₁, r₂, h₁, h₂, hr₁, hr₂, h => by
+    have ht := congrArg tagOf h
+    rw [tag_correct _ _ h₁ hr₁, tag_correct _ _ h₂ hr₂] at ht
+    cases t₂ <;> simp [Ty.tag] at ht
+    rename_i n₂
+    simp only [Ty.ok] at h₁ h₂
+    simp only [tyStr] at h
+    obtain ⟨e, er⟩ := seg_eq (identOK_iff.mp h₁).2 (identOK_iff.mp h₂).2 (stop_headNot_ident hr₁) (stop_headNot_ident hr₂) h
+    subst e; exact ⟨rfl, er⟩
+  | .named p₁ n₁ ta₁ s₁, t₂, r₁, r₂, h₁, h₂, hr₁, hr₂, h => by
+    have ht := congrArg tagOf h
+    rw [tag_correct _ _ h₁ hr₁, tag_correct _ _ h₂ hr₂] at ht
+    cases t₂ <;> simp [Ty.tag] at ht
+    rename_i p₂ n₂ ta₂ s₂
+    exact named_inj_of_ih (fun x₁ x₂ hok he₁ he₂ hx =>
+      tysStr_inj_prefix ta₁ ta₂ x₁ x₂ (by simp only [Ty.ok, Bool.and_eq_true] at h₁; exact h₁.2) hok he₁ he₂ hx) h₁ h₂ hr₁ hr₂ h
+  | .ptr e₁, t₂, r₁, r₂, h₁, h₂, hr₁, hr₂, h => by
+    have ht := congrArg tagOf h
+    rw [tag_correct _ _ h₁ hr₁, tag_correct _ _ h₂ hr₂] at ht
+    cases t₂ <;> simp [Ty.tag] at ht
+    rename_i e₂
+    simp only [Ty.ok] at h₁ h₂
+    simp only [tyStr, List.cons_append, List.cons.injEq, true_and] at h
+    obtain ⟨e, er⟩ := tyStr_inj_prefix e₁ e₂ r₁ r₂ h₁ h₂ hr₁ hr₂ h
+    subst e; exact ⟨rfl, er⟩
+  | .slice e₁, t₂, r₁, r₂, h₁, h₂, hr₁, hr₂, h => by
+    have ht := congrArg tagOf h
+    rw [tag_correct _ _ h₁ hr₁, tag_correct _ _ h₂ hr₂] at ht
+    cases t₂ <;> simp [Ty.tag] at ht
+    rename_i e₂
+    simp only [Ty.ok] at h₁ h₂
+    simp only [tyStr, List.cons_append, List.cons.injEq, true_and] at h
+    obtain ⟨e, er⟩ := tyStr_inj_prefix e₁ e₂ r₁ r₂ h₁ h₂ hr₁ hr₂ h
+    subst e; exact ⟨rfl, er⟩
+  | .array k₁ e₁, t₂, r₁, r₂, h₁, h₂, hr₁, hr₂, h => by
+    have ht := congrArg tagOf h
+    rw [tag_correct _ _ h₁ hr₁, tag_correct _ _ h₂ hr₂] at ht
+    cases t₂ <;> simp [Ty.tag] at ht
+    rename_i k₂ e₂
+    simp only [Ty.ok] at h₁ h₂
+    simp only [tyStr, List.cons_append, List.cons.injEq, true_and, List.append_assoc] at h
+    obtain ⟨ek, ex⟩ := seg_eq (natStr_ident k₁) (natStr_ident k₂) (headNot_cons (by decide)) (headNot_cons (by decide)) h
+    have ek := natStr_inj ek
+    subst ek
+    simp only [List.cons.injEq, true_and] at ex
+    obtain ⟨e, er⟩ := tyStr_inj_prefix e₁ e₂ r₁ r₂ h₁ h₂ hr₁ hr₂ ex
+    subst e; exact ⟨rfl, er⟩
+  | .map k₁ v₁, t₂, r₁, r₂, h₁, h₂, hr₁, hr₂, h => by
+    have ht := congrArg tagOf h
+    rw [tag_correct _ _ h₁ hr₁, tag_correct _ _ h₂ hr₂] at ht
+    cases t₂ <;> simp [Ty.tag] at ht
+    rename_i k₂ v₂
+    simp only [Ty.ok, Bool.and_eq_true] at h₁ h₂
+    simp only [tyStr, List.cons_append, List.cons.injEq, true_and, List.append_assoc] at h
+    obtain ⟨ek, ex⟩ := tyStr_inj_prefix k₁ k₂ _ _ h₁.1 h₂.1 (stop_of_close _) (stop_of_close _) h
+    subst ek
+    simp only [List.cons.injEq, true_and] at ex
+    obtain ⟨ev, er⟩ := tyStr_inj_prefix v₁ v₂ r₁ r₂ h₁.2 h₂.2 hr₁ hr₂ ex
+    subst ev; exact ⟨rfl, er⟩
+  | .chan _ _, _, _, _, h₁, _, _, _, _ => by simp [Ty.ok] at h₁
+  | .other _, _, _, _, h₁, _, _, _, _ => by simp [Ty.ok] at h₁
+/-- the same for a non-empty comma-separated list followed by the closing bracket -/
+theorem tysStr_inj_prefix : ∀ (ts₁ ts₂ : Tys) (x₁ x₂ : Str), ts₁.ok pathOK = true → ts₂.ok pathOK = true →
+    ts₁.isEmpty = false → ts₂.isEmpty = false →
+    tysStr ts₁ ++ ']' :: x₁ = tysStr ts₂ ++ ']' :: x₂ → ts₁ = ts₂ ∧ x₁ = x₂
+  | .nil, _, _, _, _, _, he, _, _ => by simp [Tys.isEmpty] at he
+  | .cons _ _, .nil, _, _, _, _, _, he, _ => by simp [Tys.isEmpty] at he
+  | .cons t₁ .nil, .cons t₂ .nil, x₁, x₂, h₁, h₂, _, _, h => by
+    simp only [Tys.ok, Bool.and_eq_true] at h₁ h₂
+    simp only [tysStr] at h
+    obtain ⟨e, er⟩ := tyStr_inj_prefix t₁ t₂ _ _ h₁.1 h₂.1 (stop_of_close _) (stop_of_close _) h
+    subst e
+    simp only [List.cons.injEq, true_and] at er
+    exact ⟨rfl, er⟩
+  | .cons t₁ .nil, .cons t₂ (.cons u₂ w₂), x₁, x₂, h₁, h₂, _, _, h => by
+    simp only [Tys.ok, Bool.and_eq_true] at h₁ h₂
+    simp only [tysStr, List.append_assoc, List.cons_append] at h
+    obtain ⟨_, er⟩ := tyStr_inj_prefix t₁ t₂ _ _ h₁.1 h₂.1 (stop_of_close _) (stop_of_comma _) h
+    simp at er
+  | .cons t₁ (.cons u₁ w₁), .cons t₂ .nil, x₁, x₂, h₁, h₂, _, _, h => by
+    simp only [Tys.ok, Bool.and_eq_true] at h₁ h₂
+    simp only [tysStr, List.append_assoc, List.cons_append] at h
+    obtain ⟨_, er⟩ := tyStr_inj_prefix t₁ t₂ _ _ h₁.1 h₂.1 (stop_of_comma _) (stop_of_close _) h
+    simp at er
+  | .cons t₁ (.cons u₁ w₁), .cons t₂ (.cons u₂ w₂), x₁, x₂, h₁, h₂, _, _, h => by
+    simp only [Tys.ok, Bool.and_eq_true] at h₁ h₂
+    simp only [tysStr, List.append_assoc, List.cons_append] at h
+    obtain ⟨e, er⟩ := tyStr_inj_prefix t₁ t₂ _ _ h₁.1 h₂.1 (stop_of_comma _) (stop_of_comma _) h
+    subst e
+    simp only [List.cons.injEq, true_and] at er
+    obtain ⟨e2, er2⟩ := tysStr_inj_prefix (.cons u₁ w₁) (.cons u₂ w₂) x₁ x₂ (by simp only [Tys.ok, Bool.and_eq_true]; exact h₁.2)
+      (by simp only [Tys.ok, Bool.and_eq_true]; exact h₂.2) rfl rfl er
+    rw [e2]; exact ⟨rfl, er2⟩
+end
+
+
+/-! ## entities in normal form -/
+
+/-- the data a function-like entity's name is made of: declaring package, receiver, declared name, closure indices
+    (outermost first), go/ssa type arguments -/
+structure Flat where
+  pkg : Str
+  recv : Option Recv
+  base : Str
+  nest : List Nat
+  targs : Option Tys
+
+def nestStr : List Nat → Str
+  | [] => []
+  | i :: r => '$' :: natStr i ++ nestStr r
+
+def recvStr : Option Recv → Str
+  | none => []
+  | some r =>
+    if r.ptr then '(' :: '*' :: (r.name ++ targsPart r.targs ++ ')' :: '.' :: [])
+    else r.name ++ targsPart r.targs ++ '.' :: []
+
+/-- type-argument suffix: every instance except the method itself -/
+def Flat.sfx (f : Flat) : Str :=
+  match f.targs with
+  | some ta => if f.nest.isEmpty && f.recv.isSome then [] else typeArgs ta
+  | none => []
+
+def Flat.rest (f : Flat) : Str := recvStr f.recv ++ (f.base ++ (nestStr f.nest ++ f.sfx))
+
+def Flat.render (f : Flat) : Str := pathOf f.pkg ++ '.' :: f.rest
+
+def Entity.flat : Entity → Flat
+  | .func p n => ⟨p, none, n, [], none⟩
+  | .method p r ta ptr n => ⟨p, some ⟨p, r, ta, ptr⟩, n, [], if ta.isEmpty then none else some ta⟩
+  | .closure q i => { q.flat with nest := q.flat.nest ++ [i] }
+  | .instance b ta => { b.flat with targs := some ta }
+  | .global p n => ⟨p, none, n, [], none⟩
+  | _ => ⟨[], none, [], [], none⟩
+
+theorem nestStr_append (l : List Nat) (i : Nat) : nestStr (l ++ [i]) = nestStr l ++ '$' :: natStr i := by
+  induction l with
+  | nil => simp [nestStr]
+  | cons j l ih => simp [nestStr, ih]
+
+/-- function-like entities covered by the theorem -/
+def Entity.fnLike : Entity → Bool
+  | .func .. | .method .. | .closure .. | .instance .. => true
+  | _ => false
+
+theorem ok_closure {q : Entity} {i : Nat} (h : (Entity.closure q i).ok pathOK = true) : q.fnLike = true ∧ q.ok pathOK = true := by
+  cases q <;> simp_all [Entity.ok, Entity.fnLike]
+
+theorem ok_instance {b : Entity} {ta : Tys} (h : (Entity.instance b ta).ok pathOK = true) :
+    (∃ p n, b = .func p n) ∧ b.ok pathOK = true ∧ ta.isEmpty = false ∧ ta.ok pathOK = true := by
+  cases b <;> simp_all [Entity.ok]
+
+theorem flat_facts : ∀ (e : Entity), e.ok pathOK = true → e.fnLike = true →
+    e.flat.pkg = e.pkg ∧ e.flat.recv = e.recv ∧ e.baseName = e.flat.base ++ nestStr e.flat.nest ∧
+    e.instArgs = e.flat.targs ∧ e.isMethod = (e.flat.nest.isEmpty && e.flat.recv.isSome)
+  | .func p n, _, _ => by simp [Entity.flat, Entity.pkg, Entity.recv, Entity.baseName, Entity.instArgs, Entity.isMethod, nestStr]
+  | .method p r ta ptr n, _, _ => by
+    simp [Entity.flat, Entity.pkg, Entity.recv, Entity.baseName, Entity.instArgs, Entity.isMethod, nestStr]
+  | .closure q i, h, _ => by
+    obtain ⟨hq1, hq2⟩ := ok_closure h
+    obtain ⟨a, b, c, d, _⟩ := flat_facts q hq2 hq1
+    simp [Entity.flat, Entity.pkg, Entity.recv, Entity.baseName, Entity.instArgs, Entity.isMethod, nestStr_append, a, b, c, d]
+  | .instance b ta, h, _ => by
+    obtain ⟨⟨p, n, hb⟩, _, _, _⟩ := ok_instance h
+    subst hb
+    simp [Entity.flat, Entity.pkg, Entity.recv, Entity.baseName, Entity.instArgs, Entity.isMethod, nestStr]
+  | .global .., _, h | .bound _, _, h | .thunk _, _, h | .wrapper _, _, h | .stub _, _, h | .routine .., _, h => by
+    simp [Entity.fnLike] at h
+
+theorem funcNameStr_eq (p name : Str) (rc : Option Recv) :
+    funcNameStr p name rc false = pathOf p ++ '.' :: (recvStr rc ++ name) := by
+  cases rc with
+  | none => simp [funcNameStr, recvStr]
+  | some r =>
+    cases hp : r.ptr <;> simp [funcNameStr, recvStr, namedName, targsPart, hp] <;> split <;> simp
+
+/-- the name of a covered entity, seen from its own package, is the rendering of its normal form -/
+theorem linkName_eq_render (e : Entity) (h : e.ok pathOK = true) : linkName e = e.flat.render := by
+  by_cases hf : e.fnLike = true
+  · obtain ⟨a, b, c, d, m⟩ := flat_facts e h hf
+    have : linkName e = declName e.pkg e := by
+      cases e with
+      | func p n => rfl
+      | method p r ta ptr n => rfl
+      | closure q i => rfl
+      | «instance» b ta => rfl
+      | _ => simp [Entity.fnLike] at hf
+    rw [this]
+    simp only [declName, funcNameStr_eq, Flat.render, Flat.rest, Flat.sfx, a, b, c, d, m]
+    cases e.flat.targs with
+    | none => simp
+    | some ta => simp only []; split <;> simp_all
+  · cases e with
+    | global p n =>
+      show pathOf p ++ '.' :: n = _
+      simp [Entity.flat, Flat.render, Flat.rest, Flat.sfx, recvStr, nestStr]
+    | func p n => exact absurd rfl hf
+    | method p r ta ptr n => exact absurd rfl hf
+    | closure q i => exact absurd rfl hf
+    | «instance» b ta => exact absurd rfl hf
+    | bound m => cases h
+    | thunk m => cases h
+    | wrapper m => cases h
+    | stub m => cases h
+    | routine p n => cases h
+
+/-- well-formedness of a normal form (what `Entity.ok` gives) -/
+structure FlatOK (f : Flat) : Prop where
+  path : pathOK f.pkg = true
+  base : identOK f.base = true
+  recv : ∀ r, f.recv = some r → identOK r.name = true ∧ r.targs.ok pathOK = true ∧ r.pkg = f.pkg ∧
+    f.targs = (if r.targs.isEmpty then none else some r.targs)
+  targs : ∀ ta, f.targs = some ta → ta.ok pathOK = true ∧ ta.isEmpty = false
+
+theorem flatOK_of_ok : ∀ (e : Entity), e.ok pathOK = true → FlatOK e.flat
+  | .func p n, h => by
+    simp only [Entity.ok, Bool.and_eq_true] at h
+    exact ⟨h.1, h.2, by simp [Entity.flat], by simp [Entity.flat]⟩
+  | .global p n, h => by
+    simp only [Entity.ok, Bool.and_eq_true] at h
+    exact ⟨h.1, h.2, by simp [Entity.flat], by simp [Entity.flat]⟩
+  | .method p r ta ptr n, h => by
+    simp only [Entity.ok, Bool.and_eq_true] at h
+    obtain ⟨⟨⟨h1, h2⟩, h3⟩, h4⟩ := h
+    refine ⟨h1, h4, ?_, ?_⟩
+    · intro r' hr
+      simp only [Entity.flat, Option.some.injEq] at hr
+      subst hr
+      exact ⟨h2, h3, rfl, rfl⟩
+    · intro ta' hta
+      simp only [Entity.flat] at hta
+      split at hta
+      · cases hta
+      · simp only [Option.some.injEq] at hta
+        subst hta
+        exact ⟨h3, by simpa using ‹¬ta.isEmpty = true›⟩
+  | .closure q i, h => by
+    have := flatOK_of_ok q (ok_closure h).2
+    exact ⟨this.path, this.base, this.recv, this.targs⟩
+  | .instance b ta, h => by
+    obtain ⟨⟨p, n, hb⟩, hbo, hne, hta⟩ := ok_instance h
+    subst hb
+    have := flatOK_of_ok _ hbo
+    refine ⟨this.path, this.base, by simp [Entity.flat], ?_⟩
+    intro ta' h'
+    simp only [Entity.flat, Option.some.injEq] at h'
+    subst h'
+    exact ⟨hta, hne⟩
+  | .bound _, h | .thunk _, h | .wrapper _, h | .stub _, h | .routine .., h => by simp [Entity.ok] at h
+
+
+/-! ## the rendering of a normal form is injective -/
+
+theorem nestStr_chars (l : List Nat) : ∀ c ∈ nestStr l, identChar c = true ∨ c = '$' := by
+  induction l with
+  | nil => simp [nestStr]
+  | cons i l ih =>
+    intro c hc
+    simp only [nestStr, List.mem_cons, List.mem_append] at hc
+    rcases hc with (hc | hc) | hc
+    · exact Or.inr hc
+    · exact Or.inl (natStr_ident i c hc)
+    · exact ih c hc
+
+/-- a run of identifier characters, dots and dollars, ended by a break character, contains no slash -/
+theorem noslash_run (A B : Str) (hA : ∀ c ∈ A, identChar c = true ∨ c = '.' ∨ c = '$') (hB : HeadNot nb B) :
+    ∀ c ∈ (A ++ B).takeWhile nb, (c != '/') = true := by
+  intro c hc
+  rw [takeWhile_append_all _ _ (fun x hx => by
+    rcases hA x hx with h | h | h
+    · simp [nb, ident_not_brk h]
+    · subst h; decide
+    · subst h; decide), takeWhile_headNot hB] at hc
+  simp only [List.append_nil] at hc
+  rcases hA c hc with h | h | h
+  · have : c ≠ '/' := ident_ne (by decide) h
+    simpa using this
+  · subst h; decide
+  · subst h; decide
+
+/-- the type-argument suffix is empty or a bracketed list -/
+theorem sfx_form (f : Flat) : f.sfx = [] ∨ ∃ ta, f.targs = some ta ∧ f.sfx = typeArgs ta := by
+  unfold Flat.sfx
+  cases f.targs with
+  | none => exact Or.inl rfl
+  | some ta =>
+    simp only []
+    split
+    · exact Or.inl rfl
+    · exact Or.inr ⟨ta, rfl, rfl⟩
+
+theorem sfx_headNot_nb (f : Flat) : HeadNot nb f.sfx := by
+  rcases sfx_form f with h | ⟨ta, _, h⟩ <;> rw [h]
+  · exact headNot_nil
+  · exact headNot_cons (by decide)
+
+theorem sfx_headNot_ident (f : Flat) : HeadNot identChar f.sfx := by
+  rcases sfx_form f with h | ⟨ta, _, h⟩ <;> rw [h]
+  · exact headNot_nil
+  · exact headNot_cons (by decide)
+
+theorem rest_noslash (f : Flat) (hf : FlatOK f) : ∀ c ∈ f.rest.takeWhile nb, (c != '/') = true := by
+  obtain ⟨_, hb⟩ := identOK_iff.mp hf.base
+  have hbn : ∀ c ∈ f.base ++ nestStr f.nest, identChar c = true ∨ c = '.' ∨ c = '$' := by
+    intro c hc
+    simp only [List.mem_append] at hc
+    rcases hc with hc | hc
+    · exact Or.inl (hb c hc)
+    · rcases nestStr_chars _ c hc with h | h
+      · exact Or.inl h
+      · exact Or.inr (Or.inr h)
+  unfold Flat.rest
+  cases hr : f.recv with
+  | none =>
+    simp only [recvStr, List.nil_append]
+    rw [← List.append_assoc]
+    exact noslash_run _ _ hbn (sfx_headNot_nb f)
+  | some r =>
+    obtain ⟨hn, _, _, _⟩ := hf.recv r hr
+    obtain ⟨_, hnc⟩ := identOK_iff.mp hn
+    simp only [recvStr]
+    cases r.ptr with
+    | true =>
+      intro c hc
+      simp [nb, brk] at hc
+    | false =>
+      simp only [Bool.false_eq_true, if_false]
+      unfold targsPart
+      split
+      · have e : r.name ++ [] ++ ['.'] ++ (f.base ++ (nestStr f.nest ++ f.sfx))
+            = (r.name ++ '.' :: (f.base ++ nestStr f.nest)) ++ f.sfx := by simp
+        rw [e]
+        refine noslash_run _ _ ?_ (sfx_headNot_nb f)
+        intro c hc
+        simp only [List.mem_append, List.mem_cons] at hc
+        rcases hc with hc | hc | hc
+        · exact Or.inl (hnc c hc)
+        · exact Or.inr (Or.inl hc)
+        · exact hbn c (by simpa using hc)
+      · simp only [List.append_assoc, List.cons_append]
+        exact noslash_run _ _ (fun c hc => Or.inl (hnc c hc)) (headNot_cons (by decide))
+
+theorem nestStr_inj_prefix : ∀ (n₁ n₂ : List Nat) (s₁ s₂ : Str), HeadNot identChar s₁ → HeadNot identChar s₂ →
+    (∀ x, s₁ ≠ '$' :: x) → (∀ x, s₂ ≠ '$' :: x) →
+    nestStr n₁ ++ s₁ = nestStr n₂ ++ s₂ → n₁ = n₂ ∧ s₁ = s₂
+  | [], [], _, _, _, _, _, _, h => ⟨rfl, by simpa [nestStr] using h⟩
+  | [], j :: n₂, s₁, s₂, _, _, d₁, _, h => by
+    simp only [nestStr, List.nil_append, List.cons_append] at h
+    exact absurd h (d₁ _)
+  | i :: n₁, [], s₁, s₂, _, _, _, d₂, h => by
+    simp only [nestStr, List.nil_append, List.cons_append] at h
+    exact absurd h.symm (d₂ _)
+  | i :: n₁, j :: n₂, s₁, s₂, h₁, h₂, d₁, d₂, h => by
+    simp only [nestStr, List.cons_append, List.append_assoc, List.cons.injEq, true_and] at h
+    have hn : ∀ (n : List Nat) (s : Str), HeadNot identChar s → HeadNot identChar (nestStr n ++ s) := by
+      intro n s hs
+      cases n with
+      | nil => simpa [nestStr] using hs
+      | cons k n => exact headNot_cons (by decide)
+    have := seg_eq (natStr_ident i) (natStr_ident j) (hn n₁ s₁ h₁) (hn n₂ s₂ h₂) h
+    have ij := natStr_inj this.1
+    have := nestStr_inj_prefix n₁ n₂ s₁ s₂ h₁ h₂ d₁ d₂ this.2
+    exact ⟨by rw [ij, this.1], this.2⟩
+
+/-- optional bracketed type arguments followed by a fixed non-bracket character -/
+theorem targsPart_split {ta₁ ta₂ : Tys} {c : Char} {B₁ B₂ : Str} (hc : c ≠ '[')
+    (h₁ : ta₁.ok pathOK = true) (h₂ : ta₂.ok pathOK = true)
+    (h : targsPart ta₁ ++ c :: B₁ = targsPart ta₂ ++ c :: B₂) : ta₁ = ta₂ ∧ B₁ = B₂ := by
+  unfold targsPart at h
+  cases he₁ : ta₁.isEmpty <;> cases he₂ : ta₂.isEmpty <;>
+    simp only [he₁, he₂, if_true, if_false, Bool.false_eq_true, List.nil_append, List.cons_append, List.append_assoc] at h
+  · simp only [List.cons.injEq, true_and] at h
+    obtain ⟨e, ex⟩ := tysStr_inj_prefix ta₁ ta₂ _ _ h₁ h₂ he₁ he₂ h
+    simp only [List.cons.injEq, true_and] at ex
+    exact ⟨e, ex⟩
+  · simp only [List.cons.injEq] at h
+    exact absurd h.1.symm hc
+  · simp only [List.cons.injEq] at h
+    exact absurd h.1 hc
+  · simp only [List.cons.injEq, true_and] at h
+    cases ta₁ <;> cases ta₂ <;> simp [Tys.isEmpty] at he₁ he₂
+    exact ⟨rfl, h⟩
+
+
+theorem tail_cases (f : Flat) (hf : FlatOK f) :
+    nestStr f.nest ++ f.sfx = [] ∨ (∃ x, nestStr f.nest ++ f.sfx = '$' :: x) ∨
+    (∃ ta, ta.ok pathOK = true ∧ ta.isEmpty = false ∧ nestStr f.nest ++ f.sfx = typeArgs ta) := by
+  cases hn : f.nest with
+  | cons i l => exact Or.inr (Or.inl ⟨natStr i ++ (nestStr l ++ f.sfx), by simp [nestStr]⟩)
+  | nil =>
+    simp only [nestStr, List.nil_append]
+    rcases sfx_form f with h | ⟨ta, ht, h⟩
+    · exact Or.inl h
+    · exact Or.inr (Or.inr ⟨ta, (hf.targs ta ht).1, (hf.targs ta ht).2, h⟩)
+
+theorem ident_head {s : Str} (h : identOK s = true) : ∃ c s', s = c :: s' ∧ identChar c = true := by
+  obtain ⟨h0, hc⟩ := identOK_iff.mp h
+  cases s with
+  | nil => exact absurd rfl h0
+  | cons c s' => exact ⟨c, s', rfl, hc c (by simp)⟩
+
+theorem recv_none_some {b₁ t₁ : Str} {r₂ : Recv} {B₂ : Str}
+    (hb : identOK b₁ = true)
+    (ht : t₁ = [] ∨ (∃ x, t₁ = '$' :: x) ∨ (∃ ta, ta.ok pathOK = true ∧ ta.isEmpty = false ∧ t₁ = typeArgs ta))
+    (hn : identOK r₂.name = true) (hta : r₂.targs.ok pathOK = true)
+    (h : b₁ ++ t₁ = recvStr (some r₂) ++ B₂) : False := by
+  obtain ⟨c, b', hb', hc⟩ := ident_head hb
+  simp only [recvStr] at h
+  cases hp : r₂.ptr with
+  | true =>
+    simp only [hp, if_true, hb', List.cons_append, List.cons.injEq] at h
+    have := h.1; subst this; revert hc; decide
+  | false =>
+    simp only [hp, Bool.false_eq_true, if_false, List.append_assoc, List.cons_append, List.nil_append] at h
+    have ht₁ : HeadNot identChar t₁ := by
+      rcases ht with e | ⟨x, e⟩ | ⟨ta, _, _, e⟩ <;> rw [e]
+      · exact headNot_nil
+      · exact headNot_cons (by decide)
+      · exact headNot_cons (by decide)
+    have ht₂ : HeadNot identChar (targsPart r₂.targs ++ '.' :: B₂) := by
+      unfold targsPart; split
+      · exact headNot_cons (by decide)
+      · exact headNot_cons (by decide)
+    obtain ⟨_, e⟩ := seg_eq (identOK_iff.mp hb).2 (identOK_iff.mp hn).2 ht₁ ht₂ h
+    unfold targsPart at e
+    rcases ht with e1 | ⟨x, e1⟩ | ⟨ta, hok, hne, e1⟩ <;> rw [e1] at e
+    · split at e <;> simp at e
+    · split at e <;> simp at e
+    · split at e
+      · simp [typeArgs] at e
+      · rename_i hne2
+        simp only [typeArgs, List.cons_append, List.cons.injEq, true_and, List.append_assoc, List.nil_append] at e
+        have := tysStr_inj_prefix ta r₂.targs [] ('.' :: B₂) hok hta hne (by simpa using hne2) e
+        simp at this
+
+theorem recv_some_some {r₁ r₂ : Recv} {B₁ B₂ : Str}
+    (hn₁ : identOK r₁.name = true) (hta₁ : r₁.targs.ok pathOK = true) (hn₂ : identOK r₂.name = true) (hta₂ : r₂.targs.ok pathOK = true)
+    (h : recvStr (some r₁) ++ B₁ = recvStr (some r₂) ++ B₂) :
+    r₁.name = r₂.name ∧ r₁.targs = r₂.targs ∧ r₁.ptr = r₂.ptr ∧ B₁ = B₂ := by
+  obtain ⟨c₁, b₁, hb₁, hc₁⟩ := ident_head hn₁
+  obtain ⟨c₂, b₂, hb₂, hc₂⟩ := ident_head hn₂
+  have hrest : ∀ (ta : Tys) (c : Char) (X : Str), identChar c = false → HeadNot identChar (targsPart ta ++ c :: X) := by
+    intro ta c X hc
+    unfold targsPart; split
+    · exact headNot_cons hc
+    · exact headNot_cons (by decide)
+  simp only [recvStr] at h
+  cases hp₁ : r₁.ptr <;> cases hp₂ : r₂.ptr <;>
+    simp only [hp₁, hp₂, if_true, if_false, Bool.false_eq_true, List.append_assoc, List.cons_append, List.nil_append] at h
+  · obtain ⟨en, e⟩ := seg_eq (identOK_iff.mp hn₁).2 (identOK_iff.mp hn₂).2 (hrest _ _ _ (by decide)) (hrest _ _ _ (by decide)) h
+    obtain ⟨et, eb⟩ := targsPart_split (by decide) hta₁ hta₂ e
+    exact ⟨en, et, rfl, eb⟩
+  · rw [hb₁] at h
+    simp only [List.cons_append, List.cons.injEq] at h
+    have := h.1; subst this; exact absurd hc₁ (by decide)
+  · rw [hb₂] at h
+    simp only [List.cons_append, List.cons.injEq] at h
+    have := h.1; subst this; exact absurd hc₂ (by decide)
+  · simp only [List.cons.injEq, true_and] at h
+    obtain ⟨en, e⟩ := seg_eq (identOK_iff.mp hn₁).2 (identOK_iff.mp hn₂).2 (hrest _ _ _ (by decide)) (hrest _ _ _ (by decide)) h
+    obtain ⟨et, eb⟩ := targsPart_split (by decide) hta₁ hta₂ e
+    simp only [List.cons.injEq, true_and] at eb
+    exact ⟨en, et, rfl, eb⟩
+
+
+theorem sfx_not_dollar (f : Flat) : ∀ x, f.sfx ≠ '$' :: x := by
+  intro x
+  rcases sfx_form f with h | ⟨ta, _, h⟩ <;> rw [h] <;> simp [typeArgs]
+
+/-- **Injectivity of the rendering** on well-formed normal forms whose last path element has no dot. -/
+theorem render_inj {f₁ f₂ : Flat} (h₁ : FlatOK f₁) (h₂ : FlatOK f₂) (h : f₁.render = f₂.render) : f₁ = f₂ := by
+  obtain ⟨_, hpc₁, hpo₁, hpd₁⟩ := pathOK_unpack h₁.path
+  obtain ⟨_, hpc₂, hpo₂, hpd₂⟩ := pathOK_unpack h₂.path
+  unfold Flat.render at h
+  rw [hpo₁, hpo₂] at h
+  obtain ⟨hpkg, hrest⟩ := path_split (fun c hc => path_not_brk (hpc₁ c hc)) (fun c hc => path_not_brk (hpc₂ c hc)) hpd₁ hpd₂
+    (rest_noslash f₁ h₁) (rest_noslash f₂ h₂) h
+  unfold Flat.rest at hrest
+  -- receiver
+  have hrecv : (f₁.recv = none ∧ f₂.recv = none ∨
+      ∃ r₁ r₂, f₁.recv = some r₁ ∧ f₂.recv = some r₂ ∧ r₁.name = r₂.name ∧ r₁.targs = r₂.targs ∧ r₁.ptr = r₂.ptr) ∧
+      f₁.base ++ (nestStr f₁.nest ++ f₁.sfx) = f₂.base ++ (nestStr f₂.nest ++ f₂.sfx) := by
+    cases hr₁ : f₁.recv with
+    | none =>
+      cases hr₂ : f₂.recv with
+      | none =>
+        rw [hr₁, hr₂] at hrest
+        exact ⟨Or.inl ⟨rfl, rfl⟩, by simpa [recvStr] using hrest⟩
+      | some r₂ =>
+        rw [hr₁, hr₂] at hrest
+        obtain ⟨a, b, _, _⟩ := h₂.recv r₂ hr₂
+        exact (recv_none_some h₁.base (tail_cases f₁ h₁) a b (by simpa [recvStr] using hrest)).elim
+    | some r₁ =>
+      obtain ⟨a₁, b₁, _, _⟩ := h₁.recv r₁ hr₁
+      cases hr₂ : f₂.recv with
+      | none =>
+        rw [hr₁, hr₂] at hrest
+        exact (recv_none_some h₂.base (tail_cases f₂ h₂) a₁ b₁ (by simpa [recvStr] using hrest.symm)).elim
+      | some r₂ =>
+        rw [hr₁, hr₂] at hrest
+        obtain ⟨a₂, b₂, _, _⟩ := h₂.recv r₂ hr₂
+        obtain ⟨e1, e2, e3, e4⟩ := recv_some_some a₁ b₁ a₂ b₂ hrest
+        exact ⟨Or.inr ⟨r₁, r₂, rfl, rfl, e1, e2, e3⟩, e4⟩
+  obtain ⟨hrc, hB⟩ := hrecv
+  -- declared name, closure indices, type-argument suffix
+  have htl : ∀ f : Flat, HeadNot identChar (nestStr f.nest ++ f.sfx) := by
+    intro f
+    cases f.nest with
+    | nil => simpa [nestStr] using sfx_headNot_ident f
+    | cons i l => exact headNot_cons (by decide)
+  obtain ⟨hbase, htail⟩ := seg_eq (identOK_iff.mp h₁.base).2 (identOK_iff.mp h₂.base).2 (htl f₁) (htl f₂) hB
+  obtain ⟨hnest, hsfx⟩ := nestStr_inj_prefix _ _ _ _ (sfx_headNot_ident f₁) (sfx_headNot_ident f₂)
+    (sfx_not_dollar f₁) (sfx_not_dollar f₂) htail
+  -- go/ssa type arguments
+  have htargs : f₁.targs = f₂.targs := by
+    rcases hrc with ⟨n₁, n₂⟩ | ⟨r₁, r₂, s₁, s₂, _, et, _⟩
+    · unfold Flat.sfx at hsfx
+      rw [n₁, n₂] at hsfx
+      cases t₁ : f₁.targs with
+      | none =>
+        cases t₂ : f₂.targs with
+        | none => rfl
+        | some ta₂ => rw [t₁, t₂] at hsfx; simp [typeArgs] at hsfx
+      | some ta₁ =>
+        cases t₂ : f₂.targs with
+        | none => rw [t₁, t₂] at hsfx; simp [typeArgs] at hsfx
+        | some ta₂ =>
+          rw [t₁, t₂] at hsfx
+          simp only [Option.isSome_none, Bool.and_false, Bool.false_eq_true, if_false, typeArgs, List.cons_append, List.cons.injEq, true_and] at hsfx
+          obtain ⟨o₁, e₁⟩ := h₁.targs ta₁ t₁
+          obtain ⟨o₂, e₂⟩ := h₂.targs ta₂ t₂
+          have := tysStr_inj_prefix ta₁ ta₂ [] [] o₁ o₂ e₁ e₂ hsfx
+          rw [this.1]
+    · rw [(h₁.recv r₁ s₁).2.2.2, (h₂.recv r₂ s₂).2.2.2, et]
+  -- assemble
+  have hrecv' : f₁.recv = f₂.recv := by
+    rcases hrc with ⟨n₁, n₂⟩ | ⟨r₁, r₂, s₁, s₂, en, et, ep⟩
+    · rw [n₁, n₂]
+    · rw [s₁, s₂]
+      have p₁ := (h₁.recv r₁ s₁).2.2.1
+      have p₂ := (h₂.recv r₂ s₂).2.2.1
+      cases r₁; cases r₂
+      simp_all
+  cases f₁; cases f₂
+  simp_all
+
+theorem fnLike_no_clash {a b : Entity} (ha : a.fnLike = true) (hb : b.fnLike = true) : a.declClash b = false := by
+  cases a <;> cases b <;> simp_all [Entity.fnLike, Entity.declClash]
+
+theorem nest_closure_ne (q : Entity) (i : Nat) : (Entity.closure q i).flat.nest ≠ [] := by
+  simp [Entity.flat]
+
+/-- distinct covered entities have distinct normal forms (up to Go's own function/variable clash) -/
+theorem flat_inj : ∀ (e₁ e₂ : Entity), e₁.ok pathOK = true → e₂.ok pathOK = true → e₁.flat = e₂.flat →
+    e₁ = e₂ ∨ e₁.declClash e₂ = true
+  | .closure q₁ i₁, e₂, h₁, h₂, h => by
+    cases e₂ with
+    | closure q₂ i₂ =>
+      obtain ⟨f₁, o₁⟩ := ok_closure h₁
+      obtain ⟨f₂, o₂⟩ := ok_closure h₂
+      have hn : q₁.flat.nest ++ [i₁] = q₂.flat.nest ++ [i₂] := by
+        have := congrArg Flat.nest h; simpa [Entity.flat] using this
+      have hn' := List.append_inj' hn rfl
+      have hq : q₁.flat = q₂.flat := by
+        have a := congrArg Flat.pkg h
+        have b := congrArg Flat.recv h
+        have c := congrArg Flat.base h
+        have d := congrArg Flat.targs h
+        simp only [Entity.flat] at a b c d
+        cases hq₁ : q₁.flat; cases hq₂ : q₂.flat
+        simp_all
+      rcases flat_inj q₁ q₂ o₁ o₂ hq with e | e
+      · left; rw [e]; simp at hn'; rw [hn'.2]
+      · rw [fnLike_no_clash f₁ f₂] at e; cases e
+    | func p n => exact absurd (congrArg Flat.nest h) (by simp [Entity.flat])
+    | method p r ta ptr n => exact absurd (congrArg Flat.nest h) (by simp [Entity.flat])
+    | global p n => exact absurd (congrArg Flat.nest h) (by simp [Entity.flat])
+    | «instance» b ta =>
+      obtain ⟨⟨p, n, hb⟩, _⟩ := ok_instance h₂
+      subst hb
+      exact absurd (congrArg Flat.nest h) (by simp [Entity.flat])
+    | bound m => cases h₂
+    | thunk m => cases h₂
+    | wrapper m => cases h₂
+    | stub m => cases h₂
+    | routine p n => cases h₂
+  | .func p n, e₂, h₁, h₂, h => by
+    cases e₂ with
+    | closure q₂ i₂ => exact absurd (congrArg Flat.nest h).symm (by simp [Entity.flat])
+    | func p' n' => left; simp [Entity.flat] at h; rw [h.1, h.2]
+    | method p' r ta ptr n' => simp [Entity.flat] at h
+    | global p' n' => right; simp [Entity.flat] at h; simp [Entity.declClash, h.1, h.2]
+    | «instance» b ta => simp [Entity.flat] at h
+    | bound m => cases h₂
+    | thunk m => cases h₂
+    | wrapper m => cases h₂
+    | stub m => cases h₂
+    | routine p n => cases h₂
+  | .global p n, e₂, h₁, h₂, h => by
+    cases e₂ with
+    | closure q₂ i₂ => exact absurd (congrArg Flat.nest h).symm (by simp [Entity.flat])
+    | func p' n' => right; simp [Entity.flat] at h; simp [Entity.declClash, h.1, h.2]
+    | method p' r ta ptr n' => simp [Entity.flat] at h
+    | global p' n' => left; simp [Entity.flat] at h; rw [h.1, h.2]
+    | «instance» b ta => simp [Entity.flat] at h
+    | bound m => cases h₂
+    | thunk m => cases h₂
+    | wrapper m => cases h₂
+    | stub m => cases h₂
+    | routine p n => cases h₂
+  | .method p r ta ptr n, e₂, h₁, h₂, h => by
+    cases e₂ with
+    | closure q₂ i₂ => exact absurd (congrArg Flat.nest h).symm (by simp [Entity.flat])
+    | func p' n' => simp [Entity.flat] at h
+    | method p' r' ta' ptr' n' =>
+      left
+      simp only [Entity.flat, Flat.mk.injEq, Option.some.injEq, Recv.mk.injEq] at h
+      obtain ⟨a, ⟨_, b, c, d⟩, e, _⟩ := h
+      rw [a, b, c, d, e]
+    | global p' n' => simp [Entity.flat] at h
+    | «instance» b ta' =>
+      obtain ⟨⟨p', n', hb⟩, _⟩ := ok_instance h₂
+      subst hb
+      simp [Entity.flat] at h
+    | bound m => cases h₂
+    | thunk m => cases h₂
+    | wrapper m => cases h₂
+    | stub m => cases h₂
+    | routine p n => cases h₂
+  | .instance b ta, e₂, h₁, h₂, h => by
+    obtain ⟨⟨p, n, hb⟩, _⟩ := ok_instance h₁
+    subst hb
+    cases e₂ with
+    | closure q₂ i₂ => exact absurd (congrArg Flat.nest h).symm (by simp [Entity.flat])
+    | func p' n' => simp [Entity.flat] at h
+    | method p' r' ta' ptr' n' => simp [Entity.flat] at h
+    | global p' n' => simp [Entity.flat] at h
+    | «instance» b' ta' =>
+      obtain ⟨⟨p', n', hb'⟩, _⟩ := ok_instance h₂
+      subst hb'
+      left
+      simp only [Entity.flat, Flat.mk.injEq, Option.some.injEq] at h
+      obtain ⟨a, _, c, _, e⟩ := h
+      rw [a, c, e]
+    | bound m => cases h₂
+    | thunk m => cases h₂
+    | wrapper m => cases h₂
+    | stub m => cases h₂
+    | routine p n => cases h₂
+  | .bound _, _, h₁, _, _ | .thunk _, _, h₁, _, _ | .wrapper _, _, h₁, _, _ | .stub _, _, h₁, _, _ | .routine .., _, h₁, _, _ => by
+    cases h₁
 
 end LlgoVerif.LinkName
